@@ -20,6 +20,9 @@ pub struct Item {
     pub large: bool,
     pub method: u16,
     pub password: bool,
+    /// how the entry is started: 0 start_file; 1 start_file_with_extra_data + a local/central record + end_extra_data;
+    /// 2 start_file_aligned(4096); 3 start_file_with_extra_data + end_local_start_central + a central-only record + end_extra_data
+    pub start: u8,
 }
 #[derive(Clone, Debug)]
 pub struct Case {
@@ -30,13 +33,13 @@ pub struct Case {
 impl Case {
     fn json(&self) -> Value {
         json!({"kind": "sizes", "label": self.label, "comment": crate::util::hex(&self.comment),
-               "items": self.items.iter().map(|i| json!({"size": i.size, "large": i.large, "method": i.method, "password": i.password})).collect::<Vec<_>>()})
+               "items": self.items.iter().map(|i| json!({"size": i.size, "large": i.large, "method": i.method, "password": i.password, "start": i.start})).collect::<Vec<_>>()})
     }
     fn from(v: &Value) -> Case {
         Case {
             label: v["label"].as_str().unwrap_or("replay").to_string(),
             comment: crate::util::unhex(v["comment"].as_str().unwrap_or("")),
-            items: v["items"].as_array().map(|a| a.iter().map(|i| Item { size: i["size"].as_u64().unwrap_or(0), large: i["large"].as_bool().unwrap_or(false), method: i["method"].as_u64().unwrap_or(0) as u16, password: i["password"].as_bool().unwrap_or(false) }).collect()).unwrap_or_default(),
+            items: v["items"].as_array().map(|a| a.iter().map(|i| Item { size: i["size"].as_u64().unwrap_or(0), large: i["large"].as_bool().unwrap_or(false), method: i["method"].as_u64().unwrap_or(0) as u16, password: i["password"].as_bool().unwrap_or(false), start: i["start"].as_u64().unwrap_or(0) as u8 }).collect()).unwrap_or_default(),
         }
     }
 }
@@ -97,9 +100,28 @@ pub fn check_sizes(c: &Case, st: &mut Stats, order: u64) {
         }
         for (i, it) in c.items.iter().enumerate() {
             let opts = FOpts { large: it.large, password: if it.password { Some(b"pw".to_vec()) } else { None }, ..FOpts::m(it.method) };
-            let r = w.call(&Call::StartFile { name: format!("e{i}"), opts }, &[]);
-            if !r.is_ok() {
-                any_err.get_or_insert(r.show());
+            let name = format!("e{i}");
+            let rec = |id: u16| {
+                let mut v = id.to_le_bytes().to_vec();
+                v.extend_from_slice(&[3, 0, b'x', b'y', b'z']);
+                Call::Write(v)
+            };
+            let seq: Vec<Call> = match it.start {
+                1 => vec![Call::StartExtra { name, opts }, rec(0xbeef), Call::EndExtra],
+                2 => vec![Call::StartAligned { name, opts, align: 4096 }],
+                3 => vec![Call::StartExtra { name, opts }, Call::EndLocalStartCentral, rec(0xcafe), Call::EndExtra],
+                _ => vec![Call::StartFile { name, opts }],
+            };
+            let mut failed = false;
+            for c in &seq {
+                let r = w.call(c, &[]);
+                if !r.is_ok() {
+                    any_err.get_or_insert(r.show());
+                    failed = true;
+                    break;
+                }
+            }
+            if failed {
                 break;
             }
             // stored size (incl. the 12-byte crypto header) or content size beyond 32 bits without large_file must be refused
@@ -620,7 +642,7 @@ pub fn run(args: &Args) -> i32 {
     // one item moves up to 13 GiB through the real write and read paths (minutes on a busy machine): the default
     // two-minute watchdog would mistake that for a call that does not return
     crate::util::set_hang_budget_secs(if thorough { 3600 } else { 900 });
-    let it = |size: u64, large: bool| Item { size, large, method: 0, password: false };
+    let it = |size: u64, large: bool| Item { size, large, method: 0, password: false, start: 0 };
     let mut cases: Vec<Case> = vec![];
     let sizes: Vec<u64> = if thorough { vec![G4 - 2, G4 - 1, G4, G4 + 1, 5 << 30] } else { vec![G4 - 2, G4 - 1, G4] };
     for &s in &sizes {
@@ -641,7 +663,7 @@ pub fn run(args: &Args) -> i32 {
         // the two sizes differ, and followed by an ordinary entry
         cases.push(Case {
             label: format!("small deflated large_file entry whose header offset is {o}, then a plain one"),
-            items: vec![it(pad, true), Item { size: 300, large: true, method: 8, password: false }, it(9, false)],
+            items: vec![it(pad, true), Item { size: 300, large: true, method: 8, password: false, start: 0 }, it(9, false)],
             comment: b"lf".to_vec(),
         });
     }
@@ -653,16 +675,25 @@ pub fn run(args: &Args) -> i32 {
         // compressed-size-only overflow: stored + ZipCrypto adds 12 bytes (buffers the entry in memory: 4 GiB resident)
         for s in [G4 - 13, G4 - 12] {
             for large in [false, true] {
-                cases.push(Case { label: format!("ZipCrypto stored entry of {s} bytes (+12), large_file {large}"), items: vec![Item { size: s, large, method: 0, password: true }], comment: vec![] });
+                cases.push(Case { label: format!("ZipCrypto stored entry of {s} bytes (+12), large_file {large}"), items: vec![Item { size: s, large, method: 0, password: true, start: 0 }], comment: vec![] });
             }
         }
-        cases.push(Case { label: "deflated entry of 5 GiB of zeros".into(), items: vec![Item { size: 5 << 30, large: true, method: 8, password: false }], comment: vec![] });
+        cases.push(Case { label: "deflated entry of 5 GiB of zeros".into(), items: vec![Item { size: 5 << 30, large: true, method: 8, password: false, start: 0 }], comment: vec![] });
+    }
+    // entries beyond 4 GiB that are started through the extra-data and alignment calls (the large-file promise must survive them)
+    for (st_, what) in [(1u8, "start_file_with_extra_data"), (2, "start_file_aligned"), (3, "start_file_with_extra_data (central-only record)")] {
+        if thorough || st_ != 3 {
+            cases.push(Case { label: format!("large_file entry of 2^32+1 bytes started with {what}, then a small one"), items: vec![Item { size: G4 + 1, large: true, method: 0, password: false, start: st_ }, it(5, false)], comment: vec![] });
+        }
+        if thorough {
+            cases.push(Case { label: format!("entry of 2^32 bytes NOT declared large started with {what}"), items: vec![Item { size: G4, large: false, method: 0, password: false, start: st_ }], comment: vec![] });
+        }
     }
     // uncompressed-size-only overflow: the compressed size stays tiny
-    cases.push(Case { label: "deflated entry of 2^32 zeros, not large".into(), items: vec![Item { size: G4, large: false, method: 8, password: false }], comment: vec![] });
+    cases.push(Case { label: "deflated entry of 2^32 zeros, not large".into(), items: vec![Item { size: G4, large: false, method: 8, password: false, start: 0 }], comment: vec![] });
     if thorough {
-        cases.push(Case { label: "zstd entry of 2^32+1 zeros, not large".into(), items: vec![Item { size: G4 + 1, large: false, method: 93, password: false }], comment: vec![] });
-        cases.push(Case { label: "deflated entry of 2^32-1 zeros, not large".into(), items: vec![Item { size: G4 - 1, large: false, method: 8, password: false }], comment: vec![] });
+        cases.push(Case { label: "zstd entry of 2^32+1 zeros, not large".into(), items: vec![Item { size: G4 + 1, large: false, method: 93, password: false, start: 0 }], comment: vec![] });
+        cases.push(Case { label: "deflated entry of 2^32-1 zeros, not large".into(), items: vec![Item { size: G4 - 1, large: false, method: 8, password: false, start: 0 }], comment: vec![] });
     }
     let counts: Vec<usize> = vec![0, 1, 65534, 65535, 65536, 65537, 70000];
     ctx.rule = format!(
